@@ -42,7 +42,15 @@ def work(args):
             if viol:
                 res[pid] = ["VIOLATION " + f"{o.rule} {o.key.split('::')[-1]} | {o.detail[:140]}" for o in viol[:12]]
         except AnalysisError as e:
-            res[pid] = ["ANALYSIS-ERROR " + str(e)[:200]]
+            # like check.py: a violation found before the analysis error stands
+            try:
+                viol, known = rep.evaluate(floors_enforced=False)
+            except Exception:
+                viol = []
+            if viol:
+                res[pid] = ["VIOLATION " + f"{o.rule} {o.key.split('::')[-1]} | {o.detail[:140]}" for o in viol[:12]]
+            else:
+                res[pid] = ["ANALYSIS-ERROR " + str(e)[:200]]
         except Exception:
             import traceback
             res[pid] = ["CRASH " + traceback.format_exc()[-400:]]
